@@ -101,6 +101,17 @@ UndoLogFrom(H, i) == IF i = 0 \/ H[i].status = "p" THEN <<>>
                      ELSE <<H[i].tid>> \o UndoLogFrom(H, i - 1)
 UndoLog(H) == UndoLogFrom(H, Len(H))
 
+\* lastInvalidations(n): the last n transactions, oldest first, each with the oids of its records
+LastInv(H, n) == LET k == IF n < Len(H) THEN n ELSE Len(H)
+                 IN [i \in 1..k |-> [tid |-> H[Len(H) - k + i].tid,
+                                      oids |-> [j \in 1..Len(H[Len(H) - k + i].recs) |-> H[Len(H) - k + i].recs[j].oid]]]
+\* record_iternext(oid): current record of the oid and the next oid of the index (-1: none)
+RecordIter(H) == [o \in OidsOf(H) |->
+                    LET l == Load(H, o)
+                        N == {x \in OidsOf(H) : x > o}
+                    IN IF l.k # "rev" THEN KeyErr
+                       ELSE [k |-> "rev", d |-> l.d, serial |-> l.serial, next |-> IF N = {} THEN -1 ELSE MinS(N)]]
+
 ObsTable(H, Oids) ==
   [lb   |-> [o \in Oids |-> [t \in Bounds(H) |-> LoadBefore(H, o, t)]],
    cur  |-> [o \in Oids |-> Load(H, o)],
@@ -108,6 +119,8 @@ ObsTable(H, Oids) ==
    revs |-> [o \in Oids |-> HistoryOf(H, o)],
    iter |-> IterView(H),
    ulog |-> UndoLog(H),
+   linv |-> [n \in {1, 2, 99} |-> LastInv(H, n)],
+   riter |-> RecordIter(H),
    last |-> LastTid(H),
    len  |-> Cardinality(OidsOf(H))]
 
